@@ -125,11 +125,14 @@ def monitor(sc, res):
     if meta:
         altered = False
         changed = set()
+        base = dict(sc["tree"])
         gi = 0
         for st in res["steps"]:
             op = st["op"]
-            if op["op"] == "write" and op["path"] in sc["tree"]:
-                (changed.add if op["data"] != sc["tree"][op["path"]] else changed.discard)(op["path"])
+            if op["op"] == "write":
+                if op["path"] not in base:
+                    base[op["path"]] = op["data"]  # a file that appears later: its first content is its reference
+                (changed.add if op["data"] != base[op["path"]] else changed.discard)(op["path"])
                 altered = bool(changed)
             if op["op"] == "create" and op.get("at", "") == "":
                 io_ = st["impl"]
@@ -173,6 +176,18 @@ def run(ctx):
         scs.append(seq_scenario(seq, mode=rnd.choice(["folder", "folder", "sf"]), nested=rnd.random() < 0.3, alter=alter, restore=restore, seed=rnd.randint(0, 9), twin=alter is not None and rnd.random() < 0.4))
         if _ % 4 == 3:
             gen.unsteady_clock(scs[-1], rnd, p=0.7)
+    # ten and more generations: the reference of a file stays the FIRST recorded digest (here recorded in generation 3),
+    # also when generations 10, 11, ... record failed digests
+    for fm in (["md5"], ["xxh64", "sha1"]):
+        ops = []
+        for g in range(1, 14):
+            if g == 3:
+                ops.append({"op": "write", "path": "late.txt", "data": "recorded first in generation three"})
+            if g == 10:
+                ops.append({"op": "write", "path": "late.txt", "data": "ALTERED before generation ten"})
+            ops.append({"op": "create", "at": "", "h": list(fm), "now": "2026-03-01 12:%02d:00" % g})
+        ops += [{"op": "verify", "at": ""}]
+        scs.append({"root": "root", "profile": "c04-long", "tree": {"a.txt": "content A", "s/b.txt": "content B"}, "ops": ops, "c04": {"seq": [fm] * 13, "mode": "folder", "nested": False, "alter": 9, "restore": None, "twin": False}})
     # general pool without rename detection
     for s in range(ctx.scale(25, 300)):
         sc = gen.gen_scenario(ctx.seed * 1000003 + s, "general")
